@@ -57,9 +57,12 @@ func (e *Engine) verifyFunc(name string) (*FuncResult, error) {
 	for _, fv := range fn.FreeVars {
 		v := r.freshVal("fv_"+fv.Name(), fv.Type(), st)
 		if pt, ok := fv.Type().Underlying().(*types.Pointer); ok && v.K == KPtr {
-			// captured variable cell: non-nil
+			// captured variable cell: non-nil, and not written by callees (only this closure or
+			// its parent can name it)
 			r.facts.Assert("(not (= " + v.S + " 0))")
-			_ = pt
+			if k, _ := kindOf(pt.Elem()); isScalar(k) {
+				r.cells = append(r.cells, cellRec{r.cellKey(pt.Elem()), v.S})
+			}
 		}
 		binds = append(binds, v)
 	}
